@@ -326,6 +326,39 @@ func ZZModelUnicode() {
 		}
 	}
 	nd.Assert(strings.TrimSpace(s) == s[lo:hi], "MODELS/strings.TrimSpace")
+	// strings.Fields: same separators
+	var words []string
+	start := -1
+	for i := 0; i < len(s); {
+		w := 0
+		if inSet(s[i], " \t\n\v\f\r") {
+			w = 1
+		} else if i+1 < len(s) && s[i] == 0xc2 && (s[i+1] == 0x85 || s[i+1] == 0xa0) {
+			w = 2
+		}
+		if w > 0 {
+			if start >= 0 {
+				words = append(words, s[start:i])
+				start = -1
+			}
+			i += w
+			continue
+		}
+		if start < 0 {
+			start = i
+		}
+		i++
+	}
+	if start >= 0 {
+		words = append(words, s[start:])
+	}
+	got := strings.Fields(s)
+	nd.Assert(len(got) == len(words), "MODELS/strings.Fields-count")
+	if len(got) == len(words) {
+		for i := range got {
+			nd.Assert(got[i] == words[i], "MODELS/strings.Fields-words")
+		}
+	}
 	nd.Reach("MODELS/unicode-end")
 }
 
